@@ -23,6 +23,7 @@ package keeper
 //@   ensures err == nil ==> old(OutputProposals)[k] != None && BridgeConfigs[b] != None                                                  // C05: exists
 //@   ensures err == nil ==> !isFinal(now, val(old(OutputProposals)[k]).L1BlockTime, val(BridgeConfigs[b]).FinalizationPeriod)           // C05: final_never_deleted
 //@   ensures err == nil ==> OutputProposals == old(OutputProposals)[k := None]                                                          // C11: removes_exactly_one
+//@   ensures old(OutputProposals)[k] != None && BridgeConfigs[b] != None && !isFinal(now, val(old(OutputProposals)[k]).L1BlockTime, val(BridgeConfigs[b]).FinalizationPeriod) ==> err == nil   // C05,C12: challengeable_output_can_be_deleted
 //@   assigns OutputProposals[k]
 
 //@ func (Keeper) GetLastFinalizedOutput
@@ -79,6 +80,8 @@ package keeper
 //@   requires n >= 1                                                                              // INV_OUT: stored counters are >= 1
 //@   ensures err == nil ==> old(BridgeConfigs)[b] != None && req.Proposer == val(old(BridgeConfigs)[b]).Proposer     // C12: proposer_only
 //@   ensures err == nil ==> req.OutputIndex == n                                                  // C11: next_index_only
+//@   ensures addrOK(1, req.Proposer) && b != 0 && len(req.OutputRoot) == 32 && old(BridgeConfigs)[b] != None && req.Proposer == val(old(BridgeConfigs)[b]).Proposer && req.OutputIndex == n
+//@        && (n == 1 || (old(OutputProposals)[(b, n - 1)] != None && req.L2BlockNumber > val(old(OutputProposals)[(b, n - 1)]).L2BlockNumber)) ==> err == nil   // C12,C11: current_proposer_is_never_rejected
 //@   ensures err == nil && n != 1 ==> old(OutputProposals)[(b, n - 1)] != None && req.L2BlockNumber > val(old(OutputProposals)[(b, n - 1)]).L2BlockNumber   // C11: l2_block_increases
 //@   ensures err == nil ==> NextOutputIndexes == old(NextOutputIndexes)[b := Some(n + 1)]         // C11: index_bump
 //@   ensures err == nil ==> OutputProposals == old(OutputProposals)[(b, n) := OutputProposals[(b, n)]] && OutputProposals[(b, n)] != None   // C11: stores_at_next
@@ -94,6 +97,10 @@ package keeper
 //@   let cfg := val(BridgeConfigs[b])
 //@   ensures err == nil ==> BridgeConfigs[b] != None && (req.Challenger == ms.authority || req.Challenger == cfg.Proposer || req.Challenger == cfg.Challenger)   // C12: gov_proposer_or_challenger
 //@   ensures err == nil ==> 1 <= req.OutputIndex && req.OutputIndex < n                           // C11: index_in_range
+//@   ensures addrOK(1, req.Challenger) && b != 0 && 1 <= req.OutputIndex && req.OutputIndex < n && old(BridgeConfigs)[b] != None
+//@        && (req.Challenger == ms.authority || req.Challenger == val(old(BridgeConfigs)[b]).Proposer || req.Challenger == val(old(BridgeConfigs)[b]).Challenger)
+//@        && (forall j uint64 :: req.OutputIndex <= j && j < n ==> old(OutputProposals)[(b, j)] != None && !isFinal(now, val(old(OutputProposals)[(b, j)]).L1BlockTime, val(old(BridgeConfigs)[b]).FinalizationPeriod))
+//@        ==> err == nil                                                                          // C12,C05: challengeable_suffix_can_always_be_deleted
 //@   ensures err == nil ==> NextOutputIndexes == old(NextOutputIndexes)[b := Some(req.OutputIndex)]     // C11: rollback_to_deleted
 //@   ensures err == nil ==> forall j uint64 :: req.OutputIndex <= j && j < n ==> OutputProposals[(b, j)] == None && old(OutputProposals)[(b, j)] != None
 //@        && !isFinal(now, val(old(OutputProposals)[(b, j)]).L1BlockTime, cfg.FinalizationPeriod)      // C05,C11: deletes_nonfinal_suffix
